@@ -116,9 +116,9 @@ def gen_chain(rng, allow_fused=True, allow_collators=True, domain=None):
                     opts += ["mv"] * 4
                     if curT["kind"] == "pil" and curT["c"] == 3:
                         opts += ["common"] * (6 if domain == "common" else 2)
-                if allow_fused and _fixed_tensor(curT) and fused in (None, "mix"):
+                if allow_fused and _fixed_tensor(curT) and fused is None:
                     opts += ["mix"] * 2
-            elif curT["kind"] == "semseg" and allow_fused and fused in (None, "semseg"):
+            elif curT["kind"] == "semseg" and allow_fused and fused is None:
                 opts += ["semseg"] * 8
         if not opts:
             break
@@ -221,15 +221,17 @@ def _gen_mode(rng, allow_concat=True):
         for _ in range(rng.choice([0, 0, 1, 2])):
             cur, total = _dataset_level(rng, rng.choice(DATASET_LEVEL), cur, total)
         return {"k": "mode", "mode": rng.choice(["x", "x", "index x", "x class"]), "return_ctx": rng.random() < 0.3, "cform": "compose",
-                "child": cur}
+                "child": cur}, total
     chain, info = gen_chain(rng)
-    return _mode_node(rng, chain, info)
+    return _mode_node(rng, chain, info), info["n"]
 
 
 def gen_sim_stack(rng):
     if rng.random() < 0.2:
-        return {"k": "interleaved", "batch_size": rng.choice([1, 2, 3]), "children": [_gen_mode(rng) for _ in range(rng.choice([2, 2, 3]))]}
-    return _gen_mode(rng)
+        parts = [_gen_mode(rng) for _ in range(rng.choice([2, 2, 3]))]
+        # InterleavedSampler asserts batch_size <= len(main dataset)
+        return {"k": "interleaved", "batch_size": min(rng.choice([1, 2, 3]), parts[0][1]), "children": [p[0] for p in parts]}
+    return _gen_mode(rng)[0]
 
 
 # ------------------------------------------------------------------------------------------------ probe stacks
@@ -289,9 +291,11 @@ def gen_probe_chain(rng, prefix, allow_sched=True, allow_collators=True):
         opts = [] if fused else ["subset", "shuffle", "pass"]
         if not views:
             if semseg:
-                opts += ["semseg"] * 5
+                opts += [] if fused else ["semseg"] * 5
             else:
                 opts += ["xt"] * 4 + (["mv"] * 3 if prev != "xt" else [])
+        if not opts:
+            break
         kind = rng.choice(opts)
         if li == layers - 1 and stochastic == 0:
             kind = "semseg" if semseg else rng.choice(["xt", "mv"] if prev != "xt" else ["xt"])
@@ -315,7 +319,8 @@ def gen_probe_chain(rng, prefix, allow_sched=True, allow_collators=True):
                 if rng.random() < 0.5:
                     members.append({"t": "semseg_probe", "tag": tag(f"L{li}/semseg[{mi}]")})
                 else:
-                    members.append(gen_probe_tree(rng, rng.choice([0, 1, 2]), tag, f"L{li}/semseg[{mi}]", allow_sched=allow_sched))
+                    # no schedule here: SemsegTransformWrapper has no hook that could initialise it
+                    members.append(gen_probe_tree(rng, rng.choice([0, 1, 2]), tag, f"L{li}/semseg[{mi}]", allow_sched=False))
             cur = {"k": "semseg", "members": members, "child": cur}
             fused = "semseg"
             stochastic += 1
@@ -336,7 +341,7 @@ def gen_probe_stack(rng):
     r = rng.random()
     if r < 0.2:
         parts = [gen_probe_chain(rng, f"i{j}.", allow_sched=False) for j in range(rng.choice([2, 3]))]
-        return {"k": "interleaved", "batch_size": rng.choice([2, 3]), "children": [p[0] for p in parts]}
+        return {"k": "interleaved", "batch_size": min(rng.choice([2, 3]), parts[0][1]), "children": [p[0] for p in parts]}
     if r < 0.4:
         parts = [gen_probe_chain(rng, f"c{j}.", allow_collators=False) for j in range(2)]
         kids = []
